@@ -636,3 +636,103 @@ def satisfies(v, base, mh, siblings):
     except Exception as e:  # a predicate that cannot be evaluated decides nothing
         return None if isinstance(e, (TypeError, AttributeError)) else f"predicate raised {type(e).__name__}"
     return None
+
+
+# ------------------------------------------------------------------------------------------------
+# C11: reference fold for the per-node labels, under the convention pinned by the library's own tests
+# (relabel_test / initializer_test): base values and field-less nodes count 0 nodes and sit at distance 0;
+# a node with fields counts 1 and sits at max(1, 1 + deepest non-list child); lists are transparent for the
+# distance and count 0; the weighted size adds the distance of every fielded node.
+
+
+class Labels:
+    __slots__ = ("nodes", "dist", "weighted", "types")
+
+    def __init__(self, nodes, dist, weighted, types):
+        self.nodes, self.dist, self.weighted, self.types = nodes, dist, weighted, types
+
+
+def labels(model: Model, v, tuples_transparent: bool, table: dict, _d=0):
+    """Computes reference labels for v and every node beneath it; fills table[id(node)] = Labels.
+    types = dict class -> list of ids of instances beneath (including itself)."""
+    if _d > 4000:
+        raise RecursionError("program too deep for the reference fold")
+    if isinstance(v, list):
+        nodes = weighted = 0
+        dist = 0
+        types: dict = {}
+        for x in v:
+            lx = labels(model, x, tuples_transparent, table, _d + 1)
+            nodes += lx.nodes
+            weighted += lx.weighted
+            dist = max(dist, lx.dist + (0 if isinstance(x, list) else 1))
+            _merge(types, lx.types)
+        res = Labels(nodes, dist, weighted, types)
+        table[id(v)] = res
+        return res
+    if type(v) is tuple:
+        if not tuples_transparent:
+            for x in v:  # nodes inside the tuple still carry their own labels
+                labels(model, x, tuples_transparent, table, _d + 1)
+            return Labels(0, 0, 0, {})
+        nodes = weighted = dist = 0
+        types = {}
+        for x in v:
+            lx = labels(model, x, tuples_transparent, table, _d + 1)
+            nodes += lx.nodes
+            weighted += lx.weighted
+            dist = max(dist, lx.dist)
+            _merge(types, lx.types)
+        return Labels(nodes, dist, weighted, types)
+    c = type(v)
+    if c in BASE or v is None or c not in model.registered:
+        return Labels(0, 0, 0, {})
+    fv = model.field_values(v, c)
+    if not fv:
+        res = Labels(0, 0, 0, {c: [id(v)]})
+        table[id(v)] = res
+        return res
+    nodes, dist, weighted = 1, 1, 0
+    types = {c: [id(v)]}
+    for _, _, x in fv:
+        if x is _MISSING:
+            continue
+        lx = labels(model, x, tuples_transparent, table, _d + 1)
+        nodes += lx.nodes
+        weighted += lx.weighted
+        if type(x) is tuple:
+            dist = max(dist, lx.dist + (1 if lx.nodes or lx.types else 0)) if tuples_transparent else dist
+        else:
+            dist = max(dist, lx.dist + (0 if isinstance(x, list) else 1))
+        _merge(types, lx.types)
+    weighted += dist
+    res = Labels(nodes, dist, weighted, types)
+    table[id(v)] = res
+    return res
+
+
+def _merge(a: dict, b: dict):
+    for k, ids in b.items():
+        a.setdefault(k, []).extend(ids)
+
+
+def walk_nodes(model: Model, v, out=None, _d=0):
+    """All grammar-class instances and lists in v (each object once), depth-first."""
+    if out is None:
+        out = []
+    if _d > 4000:
+        return out
+    if isinstance(v, (list, tuple)):
+        if isinstance(v, list):
+            out.append(v)
+        for x in v:
+            walk_nodes(model, x, out, _d + 1)
+        return out
+    c = type(v)
+    if c in BASE or v is None or c not in model.registered:
+        return out
+    out.append(v)
+    for _, _, x in model.field_values(v, c):
+        if x is not _MISSING:
+            walk_nodes(model, x, out, _d + 1)
+    return out
